@@ -13,7 +13,7 @@ TECHNIQUE = ("bounded-exhaustive enumeration of (control, test) trace pairs buil
 RULE = ("a trace = R ranks x profiler steps {5,6,7} x one event bag per (rank, step; the bag of step 7 is a function of the other two) from an alphabet of B bags (ops "
         "with repeated names and different durations, launch+kernel pairs incl. two templated kernels whose short "
         "names collide, a name occurring under two categories, events outside any step); every ordered pair of 1-rank traces incl. self-comparison x "
-        "iteration selection {None,5,6,[5,6],[6,5],[5,7],[7,5,6]} x device {CPU,GPU,ALL} x short names {F,T}; multi-rank pairs x "
+        "iteration selection {None,5,6,[5,6],[6,5],[5,7],[7,5,6]} x device {CPU,GPU,ALL} x short names {F,T}; a slice in which both objects carry the same label; multi-rank pairs x "
         "every rank selection (None, int, every non-empty sub-list). non-trivial = at least two of the five change "
         "classes are non-empty")
 ASSUMPTIONS = [
@@ -75,6 +75,11 @@ def worlds(tier: str, stats: Dict[str, Any]) -> Iterator[Any]:
         for t in singles:
             stats["transitions"] += 1
             yield dict(control=[list(c)], test=[list(t)], mode="obj")
+    # the two objects carry the same label
+    for c in singles[:: 2]:
+        for t in singles[1:: 3]:
+            stats["transitions"] += 1
+            yield dict(control=[list(c)], test=[list(t)], mode="obj", labels=["run", "run"])
     # multi-rank: rank r uses bags shifted by r
     for R in b["multi"]:
         for c in singles[:: 3]:
@@ -166,6 +171,8 @@ def check(world) -> Dict[str, Any]:
     mode = world["mode"]
     ctl, cr = get_lt(world["control"], "Control", mode)
     tst, tr = get_lt(world["test"], "Test", mode)
+    # the labels a user gave the two objects; equal labels are legal (the tool renames the test trace's label)
+    labels = world.get("labels", ["Control", "Test"])
     R = len(world["control"])
     execs = 0
     classes_seen = set()
@@ -182,9 +189,14 @@ def check(world) -> Dict[str, Any]:
                     ctx = dict(control=world["control"], test=world["test"], ranks=rs, iterations=its, device=dev, short=short)
                     tag = f"ranks={'None' if rs is None else ('int' if isinstance(rs, int) else ('all' if len(rs) == R else 'sublist'))}"
                     execs += 1
+                    ctl.label, tst.label = labels
                     df = TraceDiff.compare_traces(ctl, tst, rs, rs, its, its, DeviceType[dev], short)
-                    got = {str(n): [float(row["Control_counts"]), float(row["Control_total_duration"]), float(row["Test_counts"]),
-                                    float(row["Test_total_duration"]), float(row["diff_counts"]), float(row["diff_duration"])]
+                    cl, tl = ctl.label, tst.label
+                    if cl == tl or f"{cl}_counts" not in df.columns or f"{tl}_counts" not in df.columns:
+                        viol.append((f"compare/columns-not-named-after-the-two-labels/{tag}", dict(ctx, labels=[cl, tl], columns=list(df.columns))))
+                        continue
+                    got = {str(n): [float(row[f"{cl}_counts"]), float(row[f"{cl}_total_duration"]), float(row[f"{tl}_counts"]),
+                                    float(row[f"{tl}_total_duration"]), float(row["diff_counts"]), float(row["diff_duration"])]
                            for n, row in df.iterrows()}
                     names = set(ec) | set(et)
                     if len(df) != len(got):
@@ -200,6 +212,7 @@ def check(world) -> Dict[str, Any]:
                             break
                     if not short:
                         execs += 1
+                        ctl.label, tst.label = labels
                         od = TraceDiff.ops_diff(ctl, tst, rs, rs, its, its, DeviceType[dev])
                         allnames = [n for v in od.values() for n in v]
                         if len(allnames) != len(set(allnames)):
